@@ -39,6 +39,7 @@ class Emitter:
         self.prefix = prefix
         self.n = 0
         self.refcount = {}
+        self.bvint = (not self.real) and len(sem) > 3 and sem[3] == 'bv'
         if not self.real:
             self.eb, self.sb = sem[1], sem[2]
             self.FS = '(_ FloatingPoint %d %d)' % (self.eb, self.sb)
@@ -48,6 +49,8 @@ class Emitter:
         return 'Real' if self.real else self.FS
 
     def isort(self):
+        if getattr(self, 'bvint', False):
+            return '(_ BitVec 64)'
         return 'Real' if self.relax else 'Int'
 
     def declare(self, name, sort):
@@ -112,6 +115,16 @@ class Emitter:
             return self.declare(t[1], 'Bool')
         if op == 'bconst':
             return 'true' if t[1] else 'false'
+        if op == 'iconst' and self.bvint:
+            return '(_ bv%d 64)' % (t[1] % (1 << 64))
+        if self.bvint and op in ('iadd', 'isub', 'imul'):
+            return '(%s %s %s)' % ({'iadd': 'bvadd', 'isub': 'bvsub', 'imul': 'bvmul'}[op], e(t[1]), e(t[2]))
+        if self.bvint and op in ('ilt', 'ile', 'igt', 'ige', 'ieq', 'ine'):
+            if op == 'ine':
+                return '(not (= %s %s))' % (e(t[1]), e(t[2]))
+            return '(%s %s %s)' % ({'ilt': 'bvult', 'ile': 'bvule', 'igt': 'bvugt', 'ige': 'bvuge', 'ieq': '='}[op], e(t[1]), e(t[2]))
+        if self.bvint and op == 'i2f':
+            return '((_ to_fp_unsigned %d %d) RNE %s)' % (self.eb, self.sb, e(t[1]))
         if op == 'iconst':
             v = t[1]
             if self.relax:
@@ -322,11 +335,77 @@ def smt_real_to_fraction(s):
     return parse()
 
 
+def race(text, solver, timeout, seeds):
+    """Run the same query under several seeds concurrently; return the first definitive verdict and stop the others."""
+    import signal
+    procs = []
+    paths = []
+    t0 = time.time()
+    for sd in seeds:
+        with tempfile.NamedTemporaryFile('w', suffix='.smt2', delete=False) as fh:
+            fh.write(text)
+            paths.append(fh.name)
+        if solver in ('z3-new', 'z3'):
+            cmd = [Z3 if solver == 'z3-new' else Z3_OLD, '-T:%d' % int(timeout), 'sat.random_seed=%d' % sd, 'smt.random_seed=%d' % sd, 'nlsat.seed=%d' % sd, paths[-1]]
+        else:
+            cmd = [CVC5, '--lang', 'smt2', '--tlimit=%d' % int(timeout * 1000), '--produce-models', '--seed=%d' % sd, paths[-1]]
+        procs.append(subprocess.Popen(cmd, stdout=subprocess.PIPE, stderr=subprocess.STDOUT, text=True))
+    result = None
+    outs = {}
+    try:
+        while time.time() - t0 < timeout + 10:
+            alive = False
+            for i, p in enumerate(procs):
+                if i in outs:
+                    continue
+                rc = p.poll()
+                if rc is None:
+                    alive = True
+                    continue
+                out = p.stdout.read()
+                outs[i] = out
+                first = out.strip().split('\n')[0].strip() if out.strip() else ''
+                errs = [l for l in out.split('\n') if '(error' in l and 'model is not available' not in l]
+                if first in ('sat', 'unsat') and not errs:
+                    result = (first, out, time.time() - t0)
+                    break
+            if result or not alive:
+                break
+            time.sleep(0.05)
+    finally:
+        for p in procs:
+            if p.poll() is None:
+                try:
+                    p.kill()
+                except OSError:
+                    pass
+        for path in paths:
+            try:
+                os.unlink(path)
+            except OSError:
+                pass
+    if result:
+        return result
+    dt = time.time() - t0
+    any_out = ' '.join(outs.values())
+    if '(error' in any_out and 'model is not available' not in any_out:
+        return 'error', any_out, dt
+    if 'unknown' in any_out:
+        return 'unknown', any_out, dt
+    return 'timeout', any_out or 'timeout', dt
+
+
 class Pool:
     """Runs queries in parallel, one solver process each."""
 
     def __init__(self, workers=None):
         self.ex = ThreadPoolExecutor(max_workers=workers or min(16, (os.cpu_count() or 4)))
 
-    def submit(self, text, solver='z3-new', timeout=60, seed=0):
-        return self.ex.submit(run_solver, text, solver, timeout, seed)
+    def submit(self, text, solver='z3-new', timeout=60, seed=0, portfolio=None):
+        """Hard queries (timeout >= 100 s) are raced under several solver seeds: nlsat / FP run times vary by orders of
+        magnitude with the seed; the first definitive verdict (sat/unsat) wins, disagreeing verdicts are an error."""
+        if portfolio is None:
+            portfolio = 3 if timeout >= 100 else 1
+        if portfolio <= 1:
+            return self.ex.submit(run_solver, text, solver, timeout, seed)
+        return self.ex.submit(race, text, solver, timeout, [seed + 7919 * i for i in range(portfolio)])
